@@ -136,8 +136,18 @@ func (r *funcRun) ret(st *State, x *ssa.Return) {
 		for k, v := range extra {
 			vars[k] = v
 		}
-		c := &evalCtx{r: r, st: st, old: r.old, vars: vars, src: r.c.Src}
-		extra[g.Name] = r.evalOrFresh(c, g)
+		c := &evalCtx{r: r, st: st, old: r.old, vars: vars, src: r.c.Src, lenient: true}
+		gv := r.evalOrFresh(c, g)
+		// a definition that could not be evaluated on this path leaves the ghost unconstrained
+		dt := c.parseType(g.Type)
+		if ds, ok := r.v.leafSort(dt); ok {
+			if t, isT := gv.V.(Term); !isT || t.Sort != ds {
+				gv = tval{r.v.freshValue(st, "gh_"+g.Name, dt), dt}
+			} else {
+				gv.T = dt
+			}
+		}
+		extra[g.Name] = gv
 	}
 	for _, ax := range r.c.AtExit {
 		vars := r.baseVars(st)
@@ -699,15 +709,18 @@ func (r *funcRun) appendOp(st *State, cc *ssa.CallCommon, instr ssa.Instruction)
 		A := st.freshName("arrnew")
 		st.declare(A, arraySort("Int", string(lc.Sort)))
 		As := sym(A)
-		inPlaceVal := fmt.Sprintf("(ite (and (<= (+ %s %s) k) (< k (+ %s %s))) (select (select %s %s) (+ %s (- k (+ %s %s)))) (select (select %s %s) k))",
-			SlOff(s).S, lens.S, SlOff(s).S, total.S, E, SlArr(t).S, SlOff(t).S, SlOff(s).S, lens.S, E, SlArr(s).S)
-		growVal := fmt.Sprintf("(ite (and (<= 0 k) (< k %s)) (select (select %s %s) (+ %s k)) (ite (and (<= %s k) (< k %s)) (select (select %s %s) (+ %s (- k %s))) %s))",
-			lens.S, E, SlArr(s).S, SlOff(s).S, lens.S, total.S, E, SlArr(t).S, SlOff(t).S, lens.S, zeroOf(lc.Sort).S)
+		inPlaceVal := fmt.Sprintf("(ite (and (<= (+ %s %s) k) (< k (+ %s %s))) (select (select %s %s) (at %s (- k (+ %s %s)))) (select (select %s %s) k))",
+			SlOff(s).S, lens.S, SlOff(s).S, total.S, E, SlArr(t).S, t.S, SlOff(s).S, lens.S, E, SlArr(s).S)
+		growVal := fmt.Sprintf("(ite (and (<= 0 k) (< k %s)) (select (select %s %s) (at %s k)) (ite (and (<= %s k) (< k %s)) (select (select %s %s) (at %s (- k %s))) %s))",
+			lens.S, E, SlArr(s).S, s.S, lens.S, total.S, E, SlArr(t).S, t.S, lens.S, zeroOf(lc.Sort).S)
 		st.cmds = append(st.cmds, fmt.Sprintf("(assert (forall ((k Int)) (! (= (select %s k) (ite %s %s %s)) :pattern ((select %s k)))))", As, inplace.S, inPlaceVal, growVal, As))
 		st.setComp(lc.Name, sig, fmt.Sprintf("(store %s %s %s)", E, ar.S, As))
 	}
 	res := st.freshConst("app", SSlice)
 	st.assume(Ident(res, Ite(inplace, MkSlice(SlArr(s), SlOff(s), total, SlCap(s)), MkSlice(fr, IntLit(0), total, ncap))))
+	// bridge: an element position of the result names the same position of the source
+	// (gives the quantified facts about the source a trigger)
+	st.cmds = append(st.cmds, fmt.Sprintf("(assert (forall ((i Int)) (! (=> %s (= (at %s i) (at %s i))) :pattern ((at %s i)))))", inplace.S, res.S, s.S, res.S))
 	return res
 }
 
@@ -727,8 +740,8 @@ func (r *funcRun) copyOp(st *State, cc *ssa.CallCommon, instr ssa.Instruction) V
 		A := st.freshName("arrcpy")
 		st.declare(A, arraySort("Int", string(lc.Sort)))
 		As := sym(A)
-		val := fmt.Sprintf("(ite (and (<= %s k) (< k (+ %s %s))) (select (select %s %s) (+ %s (- k %s))) (select (select %s %s) k))",
-			SlOff(d).S, SlOff(d).S, n.S, E, SlArr(sv).S, SlOff(sv).S, SlOff(d).S, E, SlArr(d).S)
+		val := fmt.Sprintf("(ite (and (<= %s k) (< k (+ %s %s))) (select (select %s %s) (at %s (- k %s))) (select (select %s %s) k))",
+			SlOff(d).S, SlOff(d).S, n.S, E, SlArr(sv).S, sv.S, SlOff(d).S, E, SlArr(d).S)
 		st.cmds = append(st.cmds, fmt.Sprintf("(assert (forall ((k Int)) (! (= (select %s k) %s) :pattern ((select %s k)))))", As, val, As))
 		st.setComp(lc.Name, sig, fmt.Sprintf("(store %s %s %s)", E, SlArr(d).S, As))
 	}
